@@ -1,4 +1,6 @@
 """C19 deductive part: frame conditions F1-F5 of fit / predict for every estimator class (effect analysis over the real ASTs)."""
+from ..contracts.adv_gradflow import Evaluate
+from ..pyvc import verify
 from ..static import frames
 
 
@@ -7,3 +9,9 @@ def run_deductive(rep):
     rep.trust("effect analysis vf/static/frames.py (conservative: branch writes are only possible writes)",
               "library calls (sklearn clone/check_is_fitted/validate_data, estimator.fit on a *cloned* estimator) do not assign attributes of the fairlearn estimator other than n_features_in_/feature_names_in_")
     frames.report(rep)
+    # prediction of the adversarial estimators goes through BackendEngine.evaluate: one forward pass in evaluation mode (no Dropout noise, no BatchNorm update)
+    rep.trust("torch/keras module contract: a forward pass in evaluation mode is a pure function of the input and the parameters; in training mode Dropout draws "
+              "random masks and BatchNorm updates its running statistics (assumed)")
+    verify.verify_many(rep, [(Evaluate("torch", False), [("evaluation_mode_not_entered", verify.replace_expr("self.predictor_model.eval()", "None"))]),
+                             (Evaluate("torch", True), []),
+                             (Evaluate("tf"), [("training_flag_dropped", verify.replace_expr("self.predictor_model(X, training=False)", "self.predictor_model(X)"))])])
